@@ -203,6 +203,29 @@ func PermutedMaps(keys []string, maxK int) []ref.Val {
 	return out
 }
 
+// WideContainers: containers with more than 1024 entries whose entries are themselves containers
+// (width must not count as depth: decoders bound nesting at 1024 by default), at the top and one level down.
+func WideContainers() []ref.Val {
+	var out []ref.Val
+	for _, n := range []int{1023, 1024, 1025, 1100} {
+		l, m := ref.List(), ref.Map()
+		for i := 0; i < n; i++ {
+			switch i % 3 {
+			case 0:
+				l.L = append(l.L, ref.Map())
+			case 1:
+				l.L = append(l.L, ref.List(ref.Int(int64(i))))
+			default:
+				l.L = append(l.L, ref.Int(int64(i)))
+			}
+			m.M = append(m.M, ref.E(fmt.Sprintf("k%04d", i), ref.List()))
+		}
+		l.L[n-1] = ref.Map(ref.E("last", ref.List(ref.Map())))
+		out = append(out, l, ref.List(ref.Int(0), l), m)
+	}
+	return out
+}
+
 func bigString(n int) string { return strings.Repeat("k", n) }
 
 // Universe builds the list of cases for the tier.
@@ -257,6 +280,9 @@ func Universe(quick bool) []Case {
 			}
 		}
 	}
+	for _, v := range WideContainers() {
+		cases = append(cases, Case{V: v, Impl: "basic-any", Big: true})
+	}
 	// a CID of 65535 bytes: the byte string that carries it is the first to need a 4-byte length
 	cases = append(cases, Case{V: ref.Link(ref.MkIdentityCid(65529)), Impl: "basic-any", Big: true}, Case{V: ref.List(ref.Link(ref.MkIdentityCid(65528)), ref.Link(ref.MkIdentityCid(65530))), Impl: "basic-any", Big: true})
 	return cases
@@ -264,7 +290,7 @@ func Universe(quick bool) []Case {
 
 func Main(r *core.Run) {
 	cases := Universe(r.Quick())
-	r.Rule("every tree ≤4 (quick) / ≤6 (thorough) nodes over 13 leaves; every alphabet scalar at every position kind; every permutation of every key set ≤4 (thorough: ≤5) of an 11-key comparator-stress alphabet; permuted map nested in permuted map; every head boundary for ints and string/bytes/list/map lengths; × implementations {basicnode Any, basicnode kind prototypes, foreign refnode}. Non-trivial = value containing a map with ≥2 entries, or a scalar/length at a head boundary ≥24; distinct by (canonical value, insertion order, implementation).")
+	r.Rule("every tree ≤4 (quick) / ≤6 (thorough) nodes over 13 leaves; every alphabet scalar at every position kind; every permutation of every key set ≤4 (thorough: ≤5) of an 11-key comparator-stress alphabet; permuted map nested in permuted map; every head boundary for ints and string/bytes/list/map lengths; × implementations {basicnode Any, basicnode kind prototypes, foreign refnode}; Go values bound by bindnode (uint64 in lists, maps and behind pointers; all integer widths) through their representation node. Non-trivial = value containing a map with ≥2 entries, or a scalar/length at a head boundary ≥24; distinct by (canonical value, insertion order, implementation).")
 	r.Assume("reference canonical encoder mc/ref/refcbor.go (written from the DAG-CBOR spec statement in the property)")
 	core.ParallelFor(len(cases), func(i int) {
 		c := cases[i]
@@ -279,6 +305,7 @@ func Main(r *core.Run) {
 		}
 		r.Report("value", c, fs)
 	})
+	boundValues(r)
 	r.Sample(map[string]any{"value": cases[len(cases)/2].V.String(), "impl": cases[len(cases)/2].Impl})
 	r.Sample(map[string]any{"value": cases[len(cases)/3].V.String(), "impl": cases[len(cases)/3].Impl})
 	r.Set("cases", len(cases))
@@ -313,6 +340,11 @@ func nontrivial(v ref.Val) bool {
 }
 
 func Replay(r *core.Run, raw json.RawMessage) {
+	var bc BoundCase
+	if json.Unmarshal(raw, &bc) == nil && bc.Type != "" {
+		r.Report("bound", bc, CheckBound(bc))
+		return
+	}
 	var c Case
 	if err := json.Unmarshal(raw, &c); err != nil {
 		panic(err)
